@@ -179,7 +179,13 @@ pub fn build_case(t: &mut Tape) -> Case {
         let b = super::robust::build_hostile(&rest);
         Case { bytes: b.bytes, hostile: true, model: None, sibling: None }
     } else {
-        let mut s = build_sprite(t, &super::c07::cfg());
+        let mut cfg = super::c07::cfg();
+        if t.chance(1, 3) {
+            // larger cels (more than 256 pixels each)
+            cfg.max_cel = 40;
+            cfg.canvas_typ = 40;
+        }
+        let mut s = build_sprite(t, &cfg);
         // extreme canvas on one axis (arithmetic near the 16-bit limit), the other axis tiny
         match t.below(12) {
             0 => {
@@ -274,6 +280,14 @@ pub fn check(tape: &[u32]) -> CheckResult {
     }
     // two loads of the same bytes
     let f2 = AsepriteFile::read(&bytes[..]).map_err(|e| Failure::new("reload-fails", format!("second load of the same bytes failed: {}", e)).with(detail(json!(null))))?;
+    // the second load is first used in a *different* call order (a lazily built cache must not bake in
+    // whatever the first caller happened to need)
+    let perm2 = permutation(n, t.raw64());
+    for &i in perm2.iter().rev() {
+        if eval(&f2, &calls[i]) != base[i] {
+            return Err(Failure::new("order-dependent-across-loads", format!("call {:?} on a second load of the same bytes, used in a different call order, returned a different result", calls[i])).with(detail(json!({"call": format!("{:?}", calls[i])}))));
+        }
+    }
     let (o1, o2) = (observe(&f, true), observe(&f2, true));
     if o1 != o2 {
         return Err(Failure::new("reload-differs", format!("two loads of the same bytes differ: {}", super::c07::diff_obs(&o1, &o2))).with(detail(json!(null))));
